@@ -55,7 +55,7 @@ class OptSolver : public mp::BasicSolver {
 
   struct DebugFlag : mp::SolverOption {
     OptSolver& s;
-    DebugFlag(OptSolver& s) : mp::SolverOption("tech:debug debug dbg", "A flag.", mp::ValueArrayRef(), true), s(s) {}
+    DebugFlag(OptSolver& s) : mp::SolverOption("tech:turbo turbo trb", "A flag.", mp::ValueArrayRef(), true), s(s) {}
     void Write(fmt::Writer& w) override { w << s.flag_debug; }
     void Parse(const char*&, bool) override { s.flag_debug = 1; }
     Option_Type type() override { return Option_Type::BOOL; }
@@ -114,7 +114,7 @@ static void run_case(std::istream& f) {
   snprintf(b, sizeof b, "%a", s.mipgap); o << ",\"mip:gap\":\"" << b << "\"";
   o << ",\"tech:logfile\":" << jstr(s.logfile) << ",\"tech:param\":" << jstr(s.param);
   o << ",\"acc:int\":" << s.acc_int; snprintf(b, sizeof b, "%a", s.acc_dbl); o << ",\"acc:dbl\":\"" << b << "\"" << ",\"acc:str\":" << jstr(s.acc_str);
-  o << ",\"tech:debug\":" << s.flag_debug;
+  o << ",\"tech:turbo\":" << s.flag_debug;
   long long wantsol = -1, objno = -1;
   try { wantsol = s.GetIntOption("tech:wantsol"); objno = s.GetIntOption("obj:no"); } catch (...) {}
   o << ",\"tech:wantsol\":" << wantsol << ",\"obj:no\":" << objno;
